@@ -1,8 +1,6 @@
 package harness
 
 import (
-	"runtime"
-	"strings"
 	"crypto/sha256"
 	"encoding/hex"
 	"encoding/json"
@@ -10,7 +8,9 @@ import (
 	"hash/fnv"
 	"math/rand/v2"
 	"os"
+	"runtime"
 	"sort"
+	"strings"
 	"sync/atomic"
 	"testing"
 	"time"
@@ -21,18 +21,18 @@ import (
 
 // WorkerSpec is handed to a worker process through VERIF_SPEC.
 type WorkerSpec struct {
-	Prop     string `json:"prop"`
-	Tier     string `json:"tier"`
-	Seed     uint64 `json:"seed"`
-	From     int    `json:"from"`
-	To       int    `json:"to"`
-	Out      string `json:"out"`
-	Replay   string `json:"replay,omitempty"`   // replay file to execute instead of generating
-	Single   bool   `json:"single,omitempty"`   // crash triage: run exactly index From, report nothing else
-	ScenFile string `json:"scenFile,omitempty"` // crash triage: run this scenario file
+	Prop      string `json:"prop"`
+	Tier      string `json:"tier"`
+	Seed      uint64 `json:"seed"`
+	From      int    `json:"from"`
+	To        int    `json:"to"`
+	Out       string `json:"out"`
+	Replay    string `json:"replay,omitempty"`   // replay file to execute instead of generating
+	Single    bool   `json:"single,omitempty"`   // crash triage: run exactly index From, report nothing else
+	ScenFile  string `json:"scenFile,omitempty"` // crash triage: run this scenario file
 	ReplayDir string `json:"replayDir"`
-	NoShrink bool   `json:"noShrink,omitempty"`
-	DetEvery int    `json:"detEvery,omitempty"`
+	NoShrink  bool   `json:"noShrink,omitempty"`
+	DetEvery  int    `json:"detEvery,omitempty"`
 }
 
 // FoundViolation is a violation with its (minimised) replay file.
@@ -51,8 +51,8 @@ type ChunkResult struct {
 	Stats         map[string]int    `json:"stats"`
 	Probes        map[string]int    `json:"probes"`
 	Inconclusive  map[string]int    `json:"inconclusive"`
-	Shapes        []uint64          `json:"shapes"`     // hashes of distinct non-trivial shapes
-	Scheds        []uint64          `json:"scheds"`     // hashes of distinct interleavings
+	Shapes        []uint64          `json:"shapes"` // hashes of distinct non-trivial shapes
+	Scheds        []uint64          `json:"scheds"` // hashes of distinct interleavings
 	NonTrivial    int               `json:"nonTrivial"`
 	Choices       int               `json:"choices"`
 	Samples       []json.RawMessage `json:"samples"`
@@ -189,15 +189,15 @@ func parseRaces(text string) []sim.RaceReport {
 
 // ReplayFile is the on-disk form of a violation.
 type ReplayFile struct {
-	Property string            `json:"property"`
-	Rule     string            `json:"rule"`
-	Detail   string            `json:"detail"`
-	Facts    map[string]string `json:"facts,omitempty"`
-	LogHash  string            `json:"logHash"`
-	Shrunk   bool              `json:"shrunk"`
-	ShrinkSteps int            `json:"shrinkSteps"`
-	Scenario *sim.Scenario     `json:"scenario"`
-	EventLog []string          `json:"eventLog,omitempty"`
+	Property    string            `json:"property"`
+	Rule        string            `json:"rule"`
+	Detail      string            `json:"detail"`
+	Facts       map[string]string `json:"facts,omitempty"`
+	LogHash     string            `json:"logHash"`
+	Shrunk      bool              `json:"shrunk"`
+	ShrinkSteps int               `json:"shrinkSteps"`
+	Scenario    *sim.Scenario     `json:"scenario"`
+	EventLog    []string          `json:"eventLog,omitempty"`
 }
 
 func workerMain(t *testing.T) {
